@@ -76,10 +76,11 @@ def clean_turn(rng, cfg, k):
 
 def fits(ver, dialog, n_in, n_out, sc=False):
     """Colang 1.0 stops a turn with `Exception("Too many events.")` after 100 new events; a scripted rail
-    costs ~12 events, so configurations are kept below the cap (see design notes)."""
+    costs ~12 events (a few more after a hidden turn once the stale-context repair is applied), so configurations
+    are kept below the cap: at most 4 rails in total (see design notes)."""
     if ver != "1.0":
         return True
-    return n_in + n_out + (1 if sc else 0) <= (4 if dialog else 5)
+    return n_in + n_out + (1 if sc else 0) <= 4
 
 
 def gen_cfg(rng, max_rails=3):
